@@ -1,13 +1,58 @@
 package sighash
 
 import (
+	"encoding/json"
 	"fmt"
+	"os"
 
 	"github.com/btcsuite/btcd/txscript/v2"
 
 	"verif/harness/internal/tla"
 	"verif/harness/internal/vrun"
 )
+
+// replayFile re-runs the single case a replay file records.
+func (e *env) replayFile(path string) error {
+	b, err := os.ReadFile(path)
+	if err != nil {
+		return err
+	}
+	var doc struct {
+		Tier   string `json:"tier"`
+		Seed   int64  `json:"seed"`
+		Replay struct {
+			Case   string          `json:"case_tla"`
+			Expect string          `json:"expect_tla"`
+			Base   json.RawMessage `json:"base"`
+		} `json:"replay"`
+	}
+	if err := json.Unmarshal(b, &doc); err != nil {
+		return fmt.Errorf("%s: %w", path, err)
+	}
+	cs, err := tla.ParseValue(doc.Replay.Case)
+	if err != nil {
+		return fmt.Errorf("%s: case: %w", path, err)
+	}
+	ex, err := tla.ParseValue(doc.Replay.Expect)
+	if err != nil {
+		return fmt.Errorf("%s: expect: %w", path, err)
+	}
+	e.c.Seed = doc.Seed
+	if doc.Tier == "thorough" {
+		e.reps = 3
+	}
+	st := tla.State{"case": cs, "expect": ex}
+	if cs.F("kind").Str() == "sig" {
+		e.sigCase(st)
+	} else {
+		e.signerCase(st)
+	}
+	if err := e.infra.get(); err != nil {
+		return err
+	}
+	e.c.Logf("replayed %s: %s", path, e.st)
+	return nil
+}
 
 // Run is the C07 check.
 func Run(c *vrun.Ctx) error {
@@ -22,7 +67,13 @@ func Run(c *vrun.Ctx) error {
 	c.Assume("secp256k1 ECDSA / Schnorr signing and verification (btcec) and the taproot commitment arithmetic are trusted here (C11, C16); the binder signs with btcec and the engine verifies with it")
 	c.Assume("script control flow is C06's subject: a script item the specification marks not executed sits in an OP_0 OP_IF branch, every item is one opcode")
 
-	e := &env{c: c, st: newStats(), hashCache: txscript.NewHashCache(1 << 16), sigCache: txscript.NewSigCache(1 << 20)}
+	e := &env{c: c, st: newStats(), hashCache: txscript.NewHashCache(1 << 16), sigCache: txscript.NewSigCache(1 << 20), reps: 1}
+	if c.Thorough {
+		e.reps = 3
+	}
+	if c.Replay != "" {
+		return e.replayFile(c.Replay)
+	}
 	workers := c.Workers
 	if workers > 8 {
 		workers = 8
